@@ -213,6 +213,9 @@ func coqCase(idx int, ci *caseInfo, ex *EpExtract, ob *rt.Obs, eps map[string]*E
 	if ob == nil || ob.Panic != "" {
 		return ""
 	}
+	if acceptClass(ci) != "" {
+		return "" // content negotiation is not modelled: the recorded codec findings are judged by the direct oracle only
+	}
 	te := coqTenv(eps, ci.Service, ci)
 	if strings.HasPrefix(ci.Class, "decode:") {
 		kind := strings.TrimPrefix(ci.Class, "decode:")
@@ -233,11 +236,11 @@ func coqCase(idx int, ci *caseInfo, ex *EpExtract, ob *rt.Obs, eps map[string]*E
 		if ob.Resp == nil {
 			return ""
 		}
-		body, present, ok := parseBody(ob.Resp)
-		if !ok {
+		dbf, _, ok, opq := wireBody(ob.Resp)
+		if !ok || opq {
 			return ""
 		}
-		name, _ := lookupField(fieldsOfBody(body, present), "name")
+		name, _ := lookupField(dbf, "name")
 		return fmt.Sprintf("(%d%%N, %s, %s, %s, DReported %d %s)", idx, te, coqTable(ex), steps, ob.Resp.Status, cs(name))
 	}
 	if ob.Resp == nil {
@@ -249,11 +252,11 @@ func coqCase(idx int, ci *caseInfo, ex *EpExtract, ob *rt.Obs, eps map[string]*E
 		}
 		return ""
 	}
-	body, present, ok := parseBody(ob.Resp)
+	bf, _, ok, opaque := wireBody(ob.Resp)
 	if !ok {
 		return ""
 	}
-	bf := fieldsOfBody(body, present)
+	opaque = opaque || xmlAmbiguous(ci, ob.Resp)
 	if ob.Invoked == 0 || ci.Err == nil {
 		return ""
 	}
@@ -305,7 +308,11 @@ func coqCase(idx int, ci *caseInfo, ex *EpExtract, ob *rt.Obs, eps map[string]*E
 			client = "COther"
 		}
 	}
-	return fmt.Sprintf("(%d%%N, %s, %s, %s, mkobs %d %s %s %s %d %s)", idx, te, coqTable(ex), e, ob.Resp.Status, goa, coqFields(bf), coqFields(obsHeaders(ex, ob.Resp)), ob.WriteHeaders, client)
+	bodyObs := "(Some " + coqFields(bf) + ")"
+	if opaque {
+		bodyObs = "None" // well formed in its format, not flattened: the body is not compared
+	}
+	return fmt.Sprintf("(%d%%N, %s, %s, %s, mkobs %d %s %s %s %d %s)", idx, te, coqTable(ex), e, ob.Resp.Status, goa, bodyObs, coqFields(obsHeaders(ex, ob.Resp)), ob.WriteHeaders, client)
 }
 
 func coqKindOfDef(e dg.ErrorDef) string {
